@@ -114,15 +114,15 @@ def renameAll {β} (l : List (String × β)) : List (String × β) := l.map (fun
 
 def addKeys (s : List String) (ks : List String) : List String := ks.foldl (fun s k => if s.contains k then s else s ++ [k]) s
 
+/-- `if name in data_keys and f"_{name}" in data_keys: raise ValueError` -/
+def descClash (d : Descriptor) : Bool :=
+  reservedKeys.any (fun n => (d.intKeys ++ d.extKeys).contains n && (d.intKeys ++ d.extKeys).contains ("_" ++ n))
+
 def handleDescriptor (st : St) (d : Descriptor) : Res :=
-  let keys := d.intKeys ++ d.extKeys
-  -- `if f"_{name}" in doc["data_keys"]: raise ValueError`
-  if reservedKeys.any (fun n => keys.contains n && keys.contains ("_" ++ n)) then { st := st, err := some "ValueError" } else
-  let ik := d.intKeys.map rename
-  let ek := d.extKeys.map rename
-  { st := { st with intKeys := addKeys st.intKeys ik, extKeys := addKeys st.extKeys ek,
+  if descClash d then { st := st, err := some "ValueError" } else
+  { st := { st with intKeys := addKeys st.intKeys (d.intKeys.map rename), extKeys := addKeys st.extKeys (d.extKeys.map rename),
                     descName := alSet d.uid d.name st.descName },
-    outs := [.descriptor d.uid d.name ik ek] }
+    outs := [.descriptor d.uid d.name (d.intKeys.map rename) (d.extKeys.map rename)] }
 
 def filledGet (f : List (String × Bool)) (k : String) (dflt : Bool) : Bool := (f.lookup k).getD dflt
 
